@@ -3,6 +3,8 @@ From Coq Require Import List NArith.
 From Muscle Require Import Common.LE Gw.Tunnel Gw.TunnelProofs Gw.TunnelSound Gw.TunnelSender Gw.TunnelComplete Gw.TunnelTheorems Gw.TunnelMulti.
 From Muscle Require Import Gw.MiniTunnel Gw.MiniTunnelProofs Gw.MiniTunnelDrain.
 From Muscle Require Import Gw.Packetized Gw.PacketizedProofs Gw.TunnelOverPacketized.
+From Muscle Require Import Gw.TunnelMsg Gw.MiniTunnelMsg.
+From Muscle Require Msg.MsgDefs Msg.MsgModel Msg.MsgExamples.
 Import ListNotations.
 Local Open Scope N_scope.
 
@@ -300,3 +302,70 @@ Example C12_e2e_nontrivial :
   length e2e_pkts = 3%nat /\ taken e2e_wops wrs = e2e_pkts /\ pw_buffered wst = false /\ rest = [] /\ pr_hdr rst = []
   /\ snd (recv_all e2e_rc [] (map (pair 0) (handed rrs))) = [(0, repeat Byte.x41 9); (0, [Byte.x07])].
 Proof. exact e2e_nontrivial. Qed.
+
+(* ---------------------------------------------------------------- at the level of Messages (no slave gateway) *)
+
+(* ProxyIOGateway without a slave gateway flattens each Message into the buffer handed to the tunnel and unflattens
+   each reassembled buffer (Msg/ is C01's model of Message::Flatten/Unflatten): every Message delivered under a
+   sender's address is the round-trip image rt M of a Message M that sender was given -- and flattens to M's bytes. *)
+Theorem C12_tunnel_message_sound :
+  forall (rc : rcfg) (who : addr -> option msg_run) (net : list (addr * packet)) t out,
+    rc_misc rc = false -> 4 <= rc_mtu rc ->
+    (forall a s, who a = Some s -> msg_run_ok s) ->
+    (forall a s p, who a = Some s -> In (a, p) net -> In p (sr_packets (lower_run s)) \/ foreign (rc_magic rc) p) ->
+    recv_all rc [] net = (t, out) ->
+    forall a s D, who a = Some s -> In (a, D) (deliver_msgs out) ->
+      exists M, In M (sent_msgs (mr_mops s)) /\ D = MsgModel.rt M /\ MsgModel.flatten D = MsgModel.flatten M.
+Proof. exact tunnel_message_sound. Qed.
+Print Assumptions C12_tunnel_message_sound.
+
+Theorem C12_tunnel_message_complete :
+  forall rc c a id0 (mops : list Mop) st pkts t0,
+    scfg_ok c -> compat c rc -> id0 < two32 ->
+    N.of_nat (length (sent_msgs mops)) <= two32 ->
+    Forall MsgModel.wf (sent_msgs mops) ->
+    srun c (s_init id0) (map lower mops) = (st, pkts) ->
+    s_pkt st = [] -> s_q st = [] ->
+    tbl_wf t0 -> tbl_find a t0 = None ->
+    deliver_msgs (snd (recv_all rc t0 (map (pair a) pkts)))
+    = map (pair a) (map MsgModel.rt (filter (fitsM rc) (sent_msgs mops))).
+Proof. exact tunnel_message_complete. Qed.
+Print Assumptions C12_tunnel_message_complete.
+
+Theorem C12_mini_message_sound :
+  forall (deflate : N -> list Byte.byte -> option (list Byte.byte))
+         (inflate : list Byte.byte -> option (list Byte.byte)),
+    (forall lvl x d, deflate lvl x = Some d -> inflate d = Some x) ->
+    forall (rc : rcfg) (who : addr -> option mini_msg_run) (net : list (addr * packet)),
+      rc_misc rc = false -> PHS <= rc_mtu rc ->
+      (forall a s, who a = Some s -> mini_msg_run_ok s /\ (mc_level (mm_cfg s) = 0 \/ mc_mtu (mm_cfg s) <= rc_mtu rc)) ->
+      (forall a s p, who a = Some s -> In (a, p) net -> In p (mr_packets deflate (mlower_run s)) \/ foreign (rc_magic rc) p) ->
+      forall a s D, who a = Some s -> In (a, D) (deliver_msgs (mrecv_all inflate rc net)) ->
+        exists M, In M (sent_msgs (mm_mops s)) /\ D = MsgModel.rt M /\ MsgModel.flatten D = MsgModel.flatten M.
+Proof. exact mini_message_sound. Qed.
+Print Assumptions C12_mini_message_sound.
+
+Theorem C12_mini_message_complete :
+  forall (deflate : N -> list Byte.byte -> option (list Byte.byte))
+         (inflate : list Byte.byte -> option (list Byte.byte)),
+    (forall lvl x d, deflate lvl x = Some d -> inflate d = Some x) ->
+    forall rc c a pid0 (mops : list Mop) st pkts,
+      mcfg_ok c -> rc_misc rc = false ->
+      mc_magic c = rc_magic rc -> sex_ok rc (mc_sex c) = true -> mc_mtu c <= rc_mtu rc ->
+      pid0 < 2 ^ 24 -> Forall MsgModel.wf (sent_msgs mops) ->
+      mrun deflate c (m_init pid0) (map mlower mops) = (st, pkts) ->
+      m_pkt st = [] -> m_q st = [] ->
+      deliver_msgs (mrecv_all inflate rc (map (pair a) pkts))
+      = map (pair a) (map MsgModel.rt (filter (mfitsM c) (sent_msgs mops))).
+Proof. exact mini_message_complete. Qed.
+Print Assumptions C12_mini_message_complete.
+
+Example C12_message_premises_satisfiable : msg_run_ok exm_run /\ compat exm_cfg exm_rc.
+Proof. exact exm_ok. Qed.
+Example C12_message_nontrivial :
+  let pkts := sr_packets (lower_run exm_run) in
+  (10 < length pkts)%nat
+  /\ deliver_msgs (snd (recv_all exm_rc [] (map (pair 5) pkts)))
+     = [(5, MsgModel.rt MsgExamples.ex_msg); (5, MsgModel.rt MsgExamples.ex_sub)]
+  /\ MsgModel.rt MsgExamples.ex_msg <> MsgExamples.ex_msg.
+Proof. exact exm_nontrivial. Qed.
